@@ -1,4 +1,5 @@
-import BoltonsVerif.C17.Proofs
+import BoltonsVerif.C17.Proofs2
+import BoltonsVerif.C17.HeapProofs
 /-
 C17 — property theorems (statements + short derivations from `Proofs.lean`, and
 non-vacuity examples).
@@ -16,6 +17,11 @@ namespace C17
 variable {α : Type} [DecidableEq α]
 
 /-! ## OneToOne -/
+
+/-- OneToOne is a `dict` subclass; the model sends every mutating dict method through the paired-write code.
+    That is only right if the class body overrides each of them (an inherited one writes one side only - `|=`
+    before d30f0de): `Generated.otoDefined` is regenerated from the class body on every run -/
+theorem oto_all_mutators_overridden : ∀ n ∈ dictMutators, n ∈ Generated.otoDefined := by decide
 
 /-- MAIN: after any history, every instance satisfies the invariant (unique keys on both
     sides, `fwd[k] = v ↔ inv[v] = k`) -/
@@ -137,7 +143,25 @@ theorem oto_ctor_spec (ps : List (α × α)) :
     (((putAll ([] : Dict α α) ps).map Prod.snd).Nodup → (OTO.ofPairs ps).fwd = putAll [] ps) :=
   ⟨OTO.ofPairs_sub ps, OTO.ofPairs_injective ps⟩
 
+/-- … and loses no VALUE of `dict(pairs)`: when a value repeats, one of its keys survives (the property
+    leaves open which), so `set(x.values()) == set(dict(pairs).values())` -/
+theorem oto_ctor_values_kept (ps : List (α × α)) (k v : α)
+    (h : lookup k (putAll ([] : Dict α α) ps) = some v) : ∃ k', lookup k' (OTO.ofPairs ps).fwd = some v :=
+  OTO.ofPairs_values_kept ps k v h
+
+/-- `OneToOne.unique(pairs)` raises ValueError exactly when some value sits under two keys of `dict(pairs)`;
+    otherwise it is the plain constructor and holds `dict(pairs)` itself -/
+theorem oto_unique_spec (ps : List (α × α)) :
+    (OTO.uniqueOfPairs ps = none ↔ ¬ ((putAll ([] : Dict α α) ps).map Prod.snd).Nodup) ∧
+    (∀ s, OTO.uniqueOfPairs ps = some s → s = OTO.ofPairs ps ∧ s.fwd = putAll [] ps) :=
+  OTO.uniqueOfPairs_spec ps
+
 /-! non-vacuity: a history with overwrite + eviction through both sides, update from the own inverse, copy -/
+example : OTO.uniqueOfPairs [(1, 2), (3, 4), (5, 2)] = (none : Option (OTO Nat)) ∧
+    (OTO.uniqueOfPairs [(1, 2), (3, 4), (1, 5)] : Option (OTO Nat)) = some ⟨[(1, 5), (3, 4)], [(5, 1), (4, 3)]⟩ := by decide
+/-- the hypothesis of `oto_ctor_values_kept`: value 2 sits under keys 1 and 5; key 5 keeps it -/
+example : lookup 1 (putAll ([] : Dict Nat Nat) [(1, 2), (3, 4), (5, 2)]) = some 2 ∧
+    lookup 5 (OTO.ofPairs [(1, 2), (3, 4), (5, 2)] : OTO Nat).fwd = some 2 := by decide
 example : otoRun ([] : List (OTO Nat))
     [.new (.pairs [(1, 3), (2, 3), (4, 5)]), .op 0 true (.setitem 5 2), .copy 0 true,
      .updateFrom 1 false (.reg 0 false [(7, 7)]), .op 0 false .popitem]
@@ -169,6 +193,14 @@ theorem m2m_same_pairs_transposed (cmds : List (M2MCmd α)) (regs : List (M2M α
   have w := m2m_invariant cmds regs h s hs
   rw [mem_iteritems w.gd, mem_iteritems w.gi]
   exact w.transpose k v
+
+/-- … as lists: `list(x.inv.iteritems())` is a permutation of the swapped `list(x.iteritems())` (every pair
+    exactly once on each side) … -/
+theorem m2m_inv_perm (cmds : List (M2MCmd α)) (regs : List (M2M α))
+    (h : m2mRun [] cmds = some regs) (s : M2M α) (hs : s ∈ regs) :
+    (iteritems s.inv).Perm ((iteritems s.data).map swap) ∧ (iteritems s.inv).length = (iteritems s.data).length := by
+  have hp := M2M.inv_perm (m2m_invariant cmds regs h s hs)
+  exact ⟨hp, by simpa using hp.length_eq⟩
 
 /-- … `iteritems()` yields no pair twice … -/
 theorem m2m_pairs_nodup (cmds : List (M2MCmd α)) (regs : List (M2M α))
@@ -251,6 +283,90 @@ example : ((M2M.empty.updatePairs [(1, 5), (2, 5), (2, 6)] : M2M Nat).replace 1 
   decide
 example : hasKey 2 (M2M.empty.updatePairs [(1, 5), (2, 5), (2, 6)] : M2M Nat).data = true := by decide
 
+/-! ## ManyToMany, heap level: set OBJECTS with identities (`Heap.lean`)
+
+In the by-value model above an instance cannot hold "another instance's set object", so `m2m_isolation` there says
+nothing about aliasing.  The heap-level machine follows the class statement by statement - which statement creates a
+set object, which one stores a reference, which one mutates in place - with all instances sharing one heap. -/
+
+/-- MAIN (no aliasing): after ANY history - `update(other)` / `ManyToMany(other)` from either side of any instance,
+    the instance itself and its own inverse included - every set object is referenced from exactly one key of one
+    side of one instance, and every reference points into the heap -/
+theorem hm2m_separation (cmds : List (M2MCmd α)) (st : HState α)
+    (h : hm2mRun HState.empty cmds = some st) : HSep st :=
+  hm2mRun_sep cmds HSep.empty h
+
+/-- … hence a command changes no instance but its target: every other instance - in particular one the target was
+    built or updated from - keeps the very same references, the set objects they point to are untouched, and so it
+    is the same by value -/
+theorem hm2m_isolation (cmds : List (M2MCmd α)) (st st' : HState α) (c : M2MCmd α) (ret : Ret α)
+    (h : hm2mRun HState.empty cmds = some st) (hc : hm2mCmd st c = some (st', ret))
+    (j : Nat) (s : HInst α) (hj : st.regs[j]? = some s) (ht : j ≠ c.target st.regs.length) :
+    st'.regs[j]? = some s ∧ (∀ i ∈ idsI s, cell st'.heap i = cell st.heap i) ∧ s.abs st'.heap = s.abs st.heap := by
+  obtain ⟨h1, h2⟩ := (hm2mCmd_sep (hm2m_separation cmds st h) hc).2.2 j s ht hj
+  exact ⟨h1, h2, abs_congr _ _ _ h2⟩
+
+/-- every mutator through either side, the constructors, and `update(other)` from ANOTHER instance do by value
+    exactly what the by-value model does (same dicts, same order, same return value / KeyError).
+    FULL statement wanted: for every command.  Proved with the decidable hypothesis `c.NoSelfUpdate`
+    (`c` is not `x.update(x)` / `x.update(x.inv)`): there loop 2 reads what loop 1 has just written, the by-value
+    model reads the old value; the two agree as sets of pairs (compared on every run by the correspondence: flag `V1`)
+    but not as lists -/
+theorem hm2m_refines_partial (cmds : List (M2MCmd α)) (st : HState α)
+    (h : hm2mRun HState.empty cmds = some st) (hns : ∀ c ∈ cmds, c.NoSelfUpdate) :
+    m2mRun [] cmds = some st.abs :=
+  hm2mRun_sim cmds HSep.empty hns h
+
+/-- MAIN (heap level): after ANY history - self-updates `x.update(x)` / `x.update(x.inv)` included, which are
+    handled on their own (`x.update(x)` changes nothing; `x.update(x.inv)` is `selfMerge`) - every instance, read
+    through its references, satisfies the invariant: unique keys, no empty and no duplicated set element,
+    `v ∈ data[k] ↔ k ∈ inv[v]` -/
+theorem hm2m_invariant (cmds : List (M2MCmd α)) (st : HState α)
+    (h : hm2mRun HState.empty cmds = some st) : ∀ s ∈ st.regs, (s.abs st.heap).WF := by
+  intro s hs
+  exact hm2mRun_wf cmds HSep.empty (fun _ hm => by simp [HState.abs, HState.empty] at hm) h _
+    (List.mem_map_of_mem (f := HInst.abs st.heap) hs)
+
+/-- … hence, at heap level too, `iteritems()` of the two sides yield exactly the same pairs transposed, with no
+    empty entry on either side -/
+theorem hm2m_same_pairs_transposed (cmds : List (M2MCmd α)) (st : HState α)
+    (h : hm2mRun HState.empty cmds = some st) (s : HInst α) (hs : s ∈ st.regs) (k v : α) :
+    ((k, v) ∈ iteritems (deref st.heap s.data) ↔ (v, k) ∈ iteritems (deref st.heap s.inv)) ∧
+    (∀ p ∈ deref st.heap s.data, p.2 ≠ []) ∧ (∀ p ∈ deref st.heap s.inv, p.2 ≠ []) := by
+  have w := hm2m_invariant cmds st h s hs
+  refine ⟨?_, w.gd.ne_of_mem, w.gi.ne_of_mem⟩
+  show (k, v) ∈ iteritems (s.abs st.heap).data ↔ (v, k) ∈ iteritems (s.abs st.heap).inv
+  rw [mem_iteritems w.gd, mem_iteritems w.gi]
+  exact w.transpose k v
+
+/-- what `x.update(x.inv)` leaves in `x`: the union of the relation and its transpose -/
+theorem hm2m_self_update_spec (A : M2M α) (w : A.WF) (a x : α) :
+    (selfMerge A).WF ∧ (x ∈ getSet a (selfMerge A).data ↔ x ∈ getSet a A.data ∨ x ∈ getSet a A.inv) := by
+  refine ⟨selfMerge_wf w, ?_⟩
+  show x ∈ getSet a (List.foldl _ A.data A.inv) ↔ _
+  rw [foldMerge_mem, w.gi.exists_iff]
+
+/-! non-vacuity: build, replace onto an existing key, copy through the inverse side, update the copy from its own
+    inverse, mutate the source: four set objects for instance 0 (cells 0 and 1 dropped by `replace` / `del`), six
+    fresh ones for the copy, nothing shared -/
+example : hm2mRun (HState.empty : HState Nat)
+    [.new [(1, 5), (2, 5), (2, 6)], .op 0 false (.replace 1 2), .newFrom 0 true,
+     .updateFrom 1 false 1 true, .op 0 true (.delitem 5)]
+    = some ⟨[[5], [2], [6], [2], [2], [2], [5, 6], [5, 6], [2], [2]],
+            [⟨[(2, 2)], [(6, 3)]⟩, ⟨[(5, 4), (6, 5), (2, 7)], [(2, 6), (5, 8), (6, 9)]⟩]⟩ := by decide
+/-- a history WITH self-updates through both sides: covered by `hm2m_separation` / `hm2m_invariant` -/
+example : (hm2mRun (HState.empty : HState Nat)
+    [.new [(1, 5), (2, 6)], .updateFrom 0 false 0 true, .updateFrom 0 true 0 true, .op 0 true (.remove 5 1)]).map HState.abs
+    = some [⟨[(2, [6]), (5, [1]), (6, [2])], [(6, [2]), (1, [5]), (2, [6])]⟩] := by decide
+/-- the hypothesis `NoSelfUpdate` on a history that copies and cross-updates -/
+example : ∀ c ∈ ([.new [(1, 5)], .newFrom 0 true, .updateFrom 1 false 0 true, .op 0 true (.delitem 5)] : List (M2MCmd Nat)),
+    c.NoSelfUpdate := by decide
+/-- what the invariant excludes, and the heap-level machine can express: an instance 1 that stores instance 0's
+    set objects (the defect fixed in 5d85018) - `x0.add(6, 4)` then shows up in instance 1, on one side only -/
+example : (hm2mCmd (⟨[[2], [6]], [⟨[(6, 0)], [(2, 1)]⟩, ⟨[(6, 0)], [(2, 1)]⟩]⟩ : HState Nat) (.op 0 false (.add 6 4))).map
+      (fun p => p.1.abs)
+    = some [⟨[(6, [2, 4])], [(2, [6]), (4, [6])]⟩, ⟨[(6, [2, 4])], [(2, [6])]⟩] := by decide
+
 /-! ## FrozenDict
 
 `Generated.frozenBlocked` / `Generated.frozenRaises` are regenerated from the class body on every
@@ -322,6 +438,28 @@ theorem fd_clone_hash_own_items (ρ ρ' : Nat → Nat) (s : FD) :
     rw [h1, FD.hashIn_fresh ρ' _ rfl]
     exact hashOfIn_eq_of_dictEq ρ' _ _ (FD.rebuild_nodup _) (FD.ofPairs_nodup qs) hq
 
+/-- ANY two FrozenDicts a program can get hold of (constructor, `fromkeys`, `updated()` results, pickle /
+    deepcopy clones, each after any `hash()` calls and mutator attempts, so with the `_hash` slot set or not)
+    that are equal as dicts hash alike - or both raise FrozenHashError -/
+theorem fd_equal_hash_reachable (s t : FD) (hs : FD.Reach s) (ht : FD.Reach t)
+    (h : dictEq s.items t.items = true) : s.hash.2 = t.hash.2 :=
+  FD.hash_eq_of_ok hs.ok ht.ok h
+
+/-- what `updated()` / `fromkeys()` hand out is content-hashed on ITS OWN items whatever the original had
+    cached: it equals, and hashes like, a fresh FrozenDict built from its items in the opposite order -/
+theorem fd_derived_hash_own_items (s : FD) (hs : FD.Reach s) (ps : List (Nat × FVal)) (ks : List Nat) (v : FVal) :
+    (dictEq (s.updated ps).items (FD.ofPairs (s.updated ps).items.reverse).items = true ∧
+      (s.updated ps).hash.2 = (FD.ofPairs (s.updated ps).items.reverse).hash.2) ∧
+    (dictEq (FD.fromkeys ks v).items (FD.ofPairs (FD.fromkeys ks v).items.reverse).items = true ∧
+      (FD.fromkeys ks v).hash.2 = (FD.ofPairs (FD.fromkeys ks v).items.reverse).hash.2) := by
+  have key : ∀ u : FD, FD.Reach u → dictEq u.items (FD.ofPairs u.items.reverse).items = true ∧
+      u.hash.2 = (FD.ofPairs u.items.reverse).hash.2 := by
+    intro u hu
+    have he : dictEq u.items (FD.ofPairs u.items.reverse).items = true := by
+      rw [FD.twin_items u hu.ok.1]; exact dictEq_reverse _ hu.ok.1
+    exact ⟨he, FD.hash_eq_of_ok hu.ok (FD.Ok.ofPairs _) he⟩
+  exact ⟨key _ (hs.updated ps), key _ (.fromkeys ks v)⟩
+
 /-- `updated(pairs)`: a key of `pairs` gets its last value there, every other key keeps its value -/
 theorem fd_updated_spec (s : FD) (ps : List (Nat × FVal)) (k : Nat) (v : FVal) (a : Nat) :
     lookup a (s.updated (ps ++ [(k, v)])).items = if a = k then some v else lookup a (s.updated ps).items := by
@@ -329,6 +467,14 @@ theorem fd_updated_spec (s : FD) (ps : List (Nat × FVal)) (k : Nat) (v : FVal) 
   exact lookup_put a k v _
 
 /-! non-vacuity -/
+/-- two reachable states with different histories and cache contents, equal as dicts: the original with its hash
+    cached and then overwritten by `updated`, against a pickle clone of a differently ordered FrozenDict -/
+example : FD.Reach ((FD.ofPairs [(1, .h 3), (2, .h 0)]).hash.1.updated [(1, .h 4)]) ∧
+    FD.Reach (FD.ofPairs [(2, .h 0), (1, .h 4)]).hash.1.rebuild ∧
+    dictEq ((FD.ofPairs [(1, .h 3), (2, .h 0)]).hash.1.updated [(1, .h 4)]).items
+      (FD.ofPairs [(2, .h 0), (1, .h 4)]).hash.1.rebuild.items = true :=
+  ⟨.updated _ (.hash (.ofPairs _)), .rebuild (.hash (.ofPairs _)), by decide⟩
+example : ((FD.ofPairs [(1, .h 3), (2, .h 0)]).hash.1.updated [(1, .h 4)]).hash.2 = some [(1, 4), (2, 0)] := by decide
 example : dictEq (FD.ofPairs [(1, .h 3), (2, .h 0), (1, .h 4)]).items (FD.ofPairs [(2, .h 0), (1, .h 4)]).items = true := by decide
 example : (FD.ofPairs [(1, .h 3), (2, .h 0), (1, .h 4)]).hash.2 = some [(1, 4), (2, 0)] := by decide
 example : (FD.ofPairs [(1, .h 3), (2, .u 0)]).hash.2 = none := by decide
